@@ -9,7 +9,6 @@ import (
 	"encoding/json"
 	"fmt"
 	"os"
-	"path/filepath"
 	"strings"
 	"sync"
 
@@ -40,16 +39,12 @@ func raceLogSize() (int64, string) {
 	if base == "" {
 		return 0, ""
 	}
-	files, _ := filepath.Glob(base + ".*")
-	var total int64
-	var text []byte
-	for _, f := range files {
-		if b, err := os.ReadFile(f); err == nil {
-			total += int64(len(b))
-			text = append(text, b...)
-		}
+	// the race runtime writes to <log_path>.<pid>; only this process's own file counts
+	b, err := os.ReadFile(fmt.Sprintf("%s.%d", base, os.Getpid()))
+	if err != nil {
+		return 0, ""
 	}
-	return total, string(text)
+	return int64(len(b)), string(b)
 }
 
 // freshVoprf returns a new key OBJECT (nothing cached in it) for the same key material.
@@ -262,16 +257,28 @@ func buildConc(seed int64, kind string, prog [][]string) [][]concOp {
 			}
 		}
 	case "batch":
-		k1 := freshVoprf(oprf.SuiteP384, p384Key(seed, "k1"))
-		pubSide := freshVoprf(oprf.SuiteP384, p384Key(seed, "k1"))
-		pkBytes, _ := pubSide.Public().MarshalBinary()
-		keyID := sha256Sum(pkBytes)
+		// two type-1 issuers with different truncated key ids and one type-2 issuer; requests alternate between the type-1 keys
+		mkKey := func(name string) (*oprf.PrivateKey, *oprf.PrivateKey, []byte) {
+			k := freshVoprf(oprf.SuiteP384, p384Key(seed, name))
+			side := freshVoprf(oprf.SuiteP384, p384Key(seed, name))
+			b, _ := side.Public().MarshalBinary()
+			return k, side, sha256Sum(b)
+		}
+		kA, sideA, idA := mkKey("k1")
+		kB, sideB, idB := mkKey("k2")
+		for n := 0; idB[31] == idA[31]; n++ {
+			kB, sideB, idB = mkKey(fmt.Sprintf("k2-%d", n))
+		}
 		i2 := type2.NewBasicPublicIssuer(rsaKey(0))
-		iss := batched.NewBasicBatchedIssuer(batchIssuer1{type1.NewBasicPrivateIssuer(k1)}, batchIssuer2{i2})
+		iss := batched.NewBasicBatchedIssuer(batchIssuer1{type1.NewBasicPrivateIssuer(kA)}, batchIssuer1{type1.NewBasicPrivateIssuer(kB)}, batchIssuer2{i2})
 		for g := range prog {
 			for i := range prog[g] {
+				side, id := sideA, idA
+				if (g+i)%2 == 1 {
+					side, id = sideB, idB
+				}
 				s1, err := type1.NewBasicPrivateClient().CreateTokenRequest(hashBytes(seed, fmt.Sprintf("conc-ch-%d-%d", g, i), 16),
-					hashBytes(seed, fmt.Sprintf("conc-n-%d-%d", g, i), 32), keyID, pubSide.Public())
+					hashBytes(seed, fmt.Sprintf("conc-n-%d-%d", g, i), 32), id, side.Public())
 				if err != nil {
 					panic(err)
 				}
@@ -488,6 +495,10 @@ func genConcurrency(c *ctx, emit func(ev)) {
 		panic(err)
 	}
 	for _, b := range beh {
-		emit(ev{"op": "Conc", "kind": b.Kind, "prog": b.Prog, "reps": c.tierInt(2, 4)})
+		reps := c.tierInt(2, 4)
+		if b.Kind == "batch" {
+			reps = c.tierInt(12, 30) // few programs, cheap: repeat more often
+		}
+		emit(ev{"op": "Conc", "kind": b.Kind, "prog": b.Prog, "reps": reps})
 	}
 }
